@@ -1,5 +1,6 @@
 //! simdb — C13 (edit histories) and C12 (schedules / query histories) on the real salsa database.
 
+mod c12;
 mod c13;
 mod dbx;
 mod edits;
@@ -10,7 +11,13 @@ use std::path::{Path, PathBuf};
 use simcore::harness_error;
 
 fn main() {
-    std::panic::set_hook(Box::new(|_| {}));
+    if std::env::var("VERIF_PANIC_TRACE").is_ok() {
+        std::panic::set_hook(Box::new(|info| {
+            eprintln!("PANIC: {info}\n{}", std::backtrace::Backtrace::force_capture());
+        }));
+    } else {
+        std::panic::set_hook(Box::new(|_| {}));
+    }
     for v in ["CAIRO_DEBUG_SIERRA_GEN", "CAIRO_DEBUG_GENERATED_CODE", "PRINT_CASM_BYTECODE_OFFSETS", "MAX_STACK_TRACE_DEPTH"] {
         // SAFETY: single-threaded at this point.
         unsafe { std::env::remove_var(v) };
@@ -25,6 +32,8 @@ fn main() {
     let mut only = None;
     let mut histories = None;
     let mut quiet = false;
+    let mut level2 = cfg!(feature = "shuttle");
+    let mut runs = None;
     let mut positional = vec![];
     let mut i = 2;
     while i < args.len() {
@@ -36,6 +45,8 @@ fn main() {
             "--only" => { only = Some(args[i + 1].clone()); i += 1; }
             "--histories" => { histories = Some(args[i + 1].parse().unwrap()); i += 1; }
             "--quiet" => quiet = true,
+            "--level2" => level2 = true,
+            "--runs" => { runs = Some(args[i + 1].parse().unwrap()); i += 1; }
             other => positional.push(other.to_string()),
         }
         i += 1;
@@ -43,11 +54,29 @@ fn main() {
     let projects_dir = simcore::verif_root().join("workloads/projects");
     let code = match cmd {
         "c13" => c13::run(c13::Opts { tier, workers, budget_s, log, only, histories }, project::Project::load_all(&projects_dir)),
+        "c12" => {
+            if level2 != cfg!(feature = "shuttle") {
+                harness_error("level 2 needs the shuttle build of simdb (target-shuttle), level 1 the plain build");
+            }
+            let o = c12::Opts { tier: tier.clone(), workers, budget_s, log: log.clone(), only, runs, level2 };
+            let s = c12::run_level(&o);
+            if let Some(p) = &log {
+                std::fs::write(p, s.log.join("\n") + "\n").unwrap_or_else(|e| harness_error(&format!("log: {e}")));
+            }
+            c12::write_summary(&s, level2);
+            s.exit
+        }
+        "c12-exec" => c12::exec_child(),
+        "c12-evidence" => {
+            c12::write_evidence(&tier);
+            0
+        }
         "replay" => {
             let p = positional.first().unwrap_or_else(|| harness_error("replay <file>"));
             let v: serde_json::Value = serde_json::from_str(&std::fs::read_to_string(p).unwrap_or_else(|e| harness_error(&format!("{e}")))).unwrap_or_else(|e| harness_error(&format!("{e}")));
             match v["property"].as_str() {
                 Some("C13") => c13::replay(Path::new(p), quiet),
+                Some("C12") => c12::replay(Path::new(p), quiet),
                 _ => harness_error("unknown replay kind"),
             }
         }
